@@ -38,7 +38,7 @@ Definition zrange (n : Z) : list Z := zrange_from 0 (Z.to_nat n).
 Definition zenumerate {A} (l : list A) : list (Z * A) := combine (zrange_from 0 (length l)) l.
 
 (** what `_force_bin_existence_single` may return: (), an int, or None *)
-Inductive optint := RTuple0 | RInt (z : Z) | RNone.
+Inductive optint := OITuple0 | OIInt (z : Z) | OINone.
 
 (** ---------- exact instance: extended rationals ---------- *)
 Definition xneg (a : xnum) : xnum := match a with Fin x => Fin (- x) | NaN => NaN | PInf => NInf | NInf => PInf end.
